@@ -11,14 +11,18 @@
 //	K.a  K.p.x             Shutdown and wait until the death watch has removed the node
 //	bK.a / eK.a            begin a Shutdown and hold it inside PostStop / release it and wait for removal
 //	P(S.a,F.a,C.p.x)       the listed full spawns issued concurrently from one goroutine each
+//	fS.a fF.a fC.p.x       a spawn issued (own cancellable context) while a spawn of the same path is held: a FOLLOWER of the
+//	                       single flight; prints `wait` when it is still waiting after the grace period (always, in the code as it is)
+//	cS.a cF.a cC.p.x       cancel the oldest waiting follower of that path and print its result
+//	jS.a jF.a jC.p.x       after the held spawn ended: the results of all followers of that path
 //
 // output: one token per op, then `| <digest>`
 package main
 
 import (
 	"context"
-	"os"
 	"fmt"
+	"os"
 	"sort"
 	"strconv"
 	"strings"
@@ -88,9 +92,9 @@ type act struct {
 	key string
 }
 
-func (a *act) PreStart(*actor.Context) error    { a.w.pre(a.id, a.key); return nil }
+func (a *act) PreStart(*actor.Context) error     { a.w.pre(a.id, a.key); return nil }
 func (a *act) Receive(ctx *actor.ReceiveContext) {}
-func (a *act) PostStop(*actor.Context) error    { a.w.post(a.id, a.key); return nil }
+func (a *act) PostStop(*actor.Context) error     { a.w.post(a.id, a.key); return nil }
 
 type pending struct {
 	done chan struct{}
@@ -102,7 +106,18 @@ type pending struct {
 	desc []string   // stop: descendant paths at begin
 }
 
+// grace: how long a follower is given to (wrongly) finish before it is reported as waiting.
+const grace = 300 * time.Millisecond
+
+type follower struct {
+	done   chan struct{}
+	rp     *actor.PID
+	rerr   error
+	cancel context.CancelFunc
+}
+
 type run struct {
+	fol    map[string][]*follower // waiting followers by flight key
 	ctx    context.Context
 	sys    actor.ActorSystem
 	w      *world
@@ -121,6 +136,15 @@ func (r *run) pidNo(p *actor.PID) int {
 	return n
 }
 
+// showShared prints a follower's result: the PID identity only (its running flag would be read at print time, long
+// after the call returned).
+func (r *run) showShared(p *actor.PID, err error) string {
+	if err != nil || p == nil {
+		return r.showPID(p, err)
+	}
+	return fmt.Sprintf("p%d", r.pidNo(p))
+}
+
 func (r *run) showPID(p *actor.PID, err error) string {
 	if err != nil {
 		return "err:" + vlib.Canon(err.Error())
@@ -137,6 +161,10 @@ func (r *run) showPID(p *actor.PID, err error) string {
 
 // spawn call of one kind; key = "a" or "p.x"
 func (r *run) spawnFn(kind string, args []string, id int) (func() (*actor.PID, error), string, string) {
+	return r.spawnFnCtx(r.ctx, kind, args, id)
+}
+
+func (r *run) spawnFnCtx(ctx context.Context, kind string, args []string, id int) (func() (*actor.PID, error), string, string) {
 	switch kind {
 	case "S":
 		if len(args) != 1 {
@@ -144,14 +172,14 @@ func (r *run) spawnFn(kind string, args []string, id int) (func() (*actor.PID, e
 		}
 		name := args[0]
 		a := &act{w: r.w, id: id, key: name}
-		return func() (*actor.PID, error) { return r.sys.Spawn(r.ctx, name, a) }, name, name
+		return func() (*actor.PID, error) { return r.sys.Spawn(ctx, name, a) }, name, name
 	case "F":
 		if len(args) != 1 {
 			return nil, "", ""
 		}
 		name := args[0]
 		return func() (*actor.PID, error) {
-			return r.sys.SpawnNamedFromFunc(r.ctx, name, func(context.Context, any) error { return nil },
+			return r.sys.SpawnNamedFromFunc(ctx, name, func(context.Context, any) error { return nil },
 				actor.WithPreStart(func(context.Context) error { r.w.pre(id, name); return nil }),
 				actor.WithPostStop(func(context.Context) error { r.w.post(id, name); return nil }))
 		}, name, name
@@ -167,7 +195,7 @@ func (r *run) spawnFn(kind string, args []string, id int) (func() (*actor.PID, e
 			if !ok {
 				return nil, fmt.Errorf("noparent")
 			}
-			return pp.SpawnChild(r.ctx, name, a)
+			return pp.SpawnChild(ctx, name, a)
 		}, key, key
 	}
 	return nil, "", ""
@@ -306,6 +334,78 @@ func (r *run) op(tok string) string {
 		case <-time.After(settle):
 			return "timeout"
 		}
+	case "fS", "fF", "fC":
+		fctx, cancel := context.WithCancel(r.ctx)
+		fn, key, _ := r.spawnFnCtx(fctx, f[0][1:], f[1:], r.nextID)
+		r.nextID++
+		if fn == nil {
+			cancel()
+			return "bad-op"
+		}
+		if _, open := r.spawns[key]; !open {
+			cancel()
+			return "none"
+		}
+		fl := &follower{done: make(chan struct{}), cancel: cancel}
+		go func() {
+			fl.rp, fl.rerr = fn()
+			close(fl.done)
+		}()
+		select {
+		case <-fl.done:
+			cancel()
+			res := r.showShared(fl.rp, fl.rerr) // refused/served before the flight, or a follower that did not wait
+			if !strings.HasPrefix(res, "err:") {
+				return "[" + res + "]"
+			}
+			return res
+		case <-time.After(grace):
+			r.fol[key] = append(r.fol[key], fl)
+			return "wait"
+		}
+	case "cS", "cF", "cC":
+		key := strings.Join(f[1:], "/")
+		fls := r.fol[key]
+		if len(fls) == 0 {
+			return "none"
+		}
+		fl := fls[0]
+		r.fol[key] = fls[1:]
+		if len(r.fol[key]) == 0 {
+			delete(r.fol, key)
+		}
+		fl.cancel()
+		select {
+		case <-fl.done:
+			res := r.showShared(fl.rp, fl.rerr)
+			if !strings.HasPrefix(res, "err:") {
+				return "[" + res + "]" // the flight had already ended: the follower holds the shared result
+			}
+			return res
+		case <-time.After(settle):
+			return "timeout"
+		}
+	case "jS", "jF", "jC":
+		key := strings.Join(f[1:], "/")
+		if _, open := r.spawns[key]; open {
+			return "busy"
+		}
+		fls := r.fol[key]
+		if len(fls) == 0 {
+			return "none"
+		}
+		delete(r.fol, key)
+		var ss []string
+		for _, fl := range fls {
+			select {
+			case <-fl.done:
+				ss = append(ss, r.showShared(fl.rp, fl.rerr))
+			case <-time.After(settle):
+				ss = append(ss, "timeout")
+			}
+			fl.cancel()
+		}
+		return "[" + strings.Join(ss, ",") + "]"
 	case "eS", "eF", "eC":
 		key := strings.Join(f[1:], "/")
 		pd, ok := r.spawns[key]
@@ -419,7 +519,11 @@ func (r *run) digest() string {
 	sort.Strings(mx)
 	started := r.w.started
 	r.w.mu.Unlock()
-	return fmt.Sprintf("tree=%s num=%d live=%s started=%d over=%s open=%d", strings.Join(nodes, ","), r.sys.NumActors(), strings.Join(live, ","), started, strings.Join(mx, ","), len(r.stops))
+	nfol := 0
+	for _, fls := range r.fol {
+		nfol += len(fls)
+	}
+	return fmt.Sprintf("tree=%s num=%d live=%s started=%d over=%s open=%d fol=%d", strings.Join(nodes, ","), r.sys.NumActors(), strings.Join(live, ","), started, strings.Join(mx, ","), len(r.stops), nfol)
 }
 
 func runCase(line string) string {
@@ -443,7 +547,7 @@ func runCase(line string) string {
 		_ = sys.Stop(ctx)
 		return "err:guardians"
 	}
-	r := &run{ctx: ctx, sys: sys, w: newWorld(), pids: map[*actor.PID]int{}, nextID: 1, spawns: map[string]*pending{}, stops: map[string]*pending{}}
+	r := &run{ctx: ctx, sys: sys, w: newWorld(), pids: map[*actor.PID]int{}, nextID: 1, spawns: map[string]*pending{}, stops: map[string]*pending{}, fol: map[string][]*follower{}}
 	var out []string
 	for _, t := range toks {
 		out = append(out, vlib.Safe(func() string { return r.op(t) }))
@@ -465,6 +569,16 @@ func runCase(line string) string {
 		close(pd.gate)
 		<-pd.done
 		delete(r.stops, k)
+	}
+	for k, fls := range r.fol {
+		for _, fl := range fls {
+			select {
+			case <-fl.done:
+			case <-time.After(settle):
+			}
+			fl.cancel()
+		}
+		delete(r.fol, k)
 	}
 	sctx, cancel := context.WithTimeout(ctx, 10*time.Second)
 	_ = sys.Stop(sctx)
